@@ -159,6 +159,20 @@ def pipeline_cases(ctx, specs):
             inv = [to_dict(e) for e in pipe.get_lie_expansions(inverse=True)]
             ctx.sample({"case": label, "lambda": lam, "omega1": om1, "omega2": om2, "n_terms_H": len(H_old), "n_terms_G": len(G)})
             check_transform(ctx, label, N, eta, H_old, H_pn, G, elim, fw, inv, "partial", rng, ctx.pick(4, 12))
+            # history: the series must be repeatable — asking for the inverse must not change what a later request for the forward
+            # series returns (and vice versa); order of requests so far: forward, inverse
+            fw2 = [to_dict(e) for e in pipe.get_lie_expansions(inverse=False)]
+            inv2 = [to_dict(e) for e in pipe.get_lie_expansions(inverse=True)]
+            fw3 = [to_dict(e) for e in pipe.get_lie_expansions(inverse=False)]
+
+            def sdiff(A, B):
+                return max(max((abs(a.get(k_, 0) - b.get(k_, 0)) for k_ in set(a) | set(b)), default=0.0) for a, b in zip(A, B))
+            ctx.check(sdiff(fw, fw2) <= 1e-13 and sdiff(fw, fw3) <= 1e-13 and sdiff(inv, inv2) <= 1e-13,
+                      "4:coordinate series are repeatable across forward/inverse requests (no hidden state)",
+                      {"case": label, "fw_vs_fw_after_inverse": sdiff(fw, fw2), "fw_vs_third_request": sdiff(fw, fw3), "inv_vs_second_inverse": sdiff(inv, inv2)})
+            Gp2 = to_dict(pipe.get_generating_functions("partial").poly_G)
+            ctx.check(max((abs(G.get(k_, 0) - Gp2.get(k_, 0)) for k_ in set(G) | set(Gp2)), default=0.0) <= 1e-14,
+                      "4:generating functions unchanged by building coordinate series", {"case": label})
             # swapping forward and inverse must be visible (guards the oracle itself): composing with the inverse series gives O(r^3)
             z = 0.1 * (rng.normal(size=6) + 1j * rng.normal(size=6)) / 2
             wrong = abs(pu.eval_dict(H_pn, z) - pu.eval_dict(H_old, series_eval(inv, z)))
